@@ -38,7 +38,7 @@ CASE_TIMEOUT = {'quick': 200, 'thorough': 400}
 
 
 def plan(tier, seed):
-    n = 128 if tier == 'quick' else 16000
+    n = 1200 if tier == 'quick' else 16000
     return [{'idx': i, 'kind': ['mesh', 'mesh', 'sat', 'mesh', 'p2p', 'mesh', 'sat', 'mesh'][i % 8]} for i in range(n)]
 
 
